@@ -419,6 +419,47 @@ def diff_tag(a, b):
     return "same-up-to-numbers"
 
 
+def hidden_diffs(a, b, out=None):
+    """Root-cause tags: differences between a and b that cmp_expr cannot see (or sees through numbers)."""
+    out = set() if out is None else out
+    stack = [(a, b)]
+    while stack:
+        x, y = stack.pop()
+        if x is y or type(x) is not type(y):
+            continue
+        if x._ufl_is_terminal_:
+            if isinstance(x, MultiIndex):
+                if len(x._indices) != len(y._indices):
+                    out.add("MultiIndex(length)")
+            elif isinstance(x, Coefficient):
+                if x.count() == y.count() and x != y:
+                    out.add("Coefficient(same-count)")
+            elif isinstance(x, Argument):
+                if x.number() == y.number() and (x.part() is None) != (y.part() is None):
+                    out.add("Argument(part-None-vs-int)")
+                elif (x.number(), x.part()) == (y.number(), y.part()) and x != y:
+                    out.add("Argument(same-number-part)")
+            elif isinstance(x, Zero):
+                if x.ufl_free_indices and y.ufl_free_indices and repr(x) != repr(y):
+                    out.add("Zero(free-index-numbers-in-repr)")
+            continue
+        if isinstance(x, BaseFormOperator):
+            if x.derivatives != y.derivatives or x.ufl_function_space() != y.ufl_function_space():
+                out.add(type(x).__name__ + "(data)")
+        stack.extend(zip(x.ufl_operands, y.ufl_operands))
+    return out
+
+
+def cause_tag(*pairs):
+    """Family tag of a violation: the hidden differences of the pairs involved, else the first visible difference."""
+    out = set()
+    for x, y in pairs:
+        hidden_diffs(x, y, out)
+    if out:
+        return "+".join(sorted(out))
+    return diff_tag(*pairs[0])
+
+
 # =====================================================================================================
 # universe
 # =====================================================================================================
@@ -492,29 +533,31 @@ EXTRAS = [
 PARAMS = {
     "quick": dict(
         core0=["f5", "g5", "f9", "f10", "c9", "c10", "a0", "two", "v6", "w7", "A3"],
-        un1_targets=["f5", "g5", "h5", "f9", "f10", "f11", "c9", "c10", "cB9", "a0", "b0", "v6", "w7", "A3", "xA", "xB",
-                     "nA", "nB", "volA", "volB", "eo1", "eo3"],
-        un1_ops=["neg", "abs", "conj", "sin", "pos", "minus", "grad"],
-        bin1_ops=["add", "mul", "div", "inner", "dot", "outer"],
-        core1=["f9", "c9", "v6", "two"],
+        un1_targets=["f5", "g5", "f9", "f10", "c9", "c10", "a0", "b0", "v6", "A3", "xA", "xB", "nA", "eo1", "eo3"],
+        un1_ops=["neg", "abs", "conj", "sin", "pos", "grad"],
+        bin1_ops=["add", "mul", "div", "inner", "outer"],
+        l2_sources="nonbin",
+        core1=["f9", "v6"],
         un2_ops=["neg"],
-        bin2_ops=["add", "mul", "inner"],
+        bin2_ops=["add", "mul"],
         level3=False,
         r_size=150,
     ),
     "thorough": dict(
-        core0=["f5", "g5", "h5", "f9", "f10", "f100", "c9", "c10", "cB9", "a0", "b0", "a1", "two", "half", "cplx",
-               "v6", "w7", "va0", "A3", "B4", "xA", "volA", "nA"],
+        core0=["f5", "g5", "h5", "f9", "f10", "f100", "c9", "c10", "cB9", "a0", "b0", "two", "half", "v6", "w7",
+               "va0", "A3", "B4", "xA"],
         un1_targets=None,  # all terminals
-        un1_ops=["neg", "abs", "conj", "real", "imag", "sin", "cos", "sqrt", "exp", "pos", "minus", "grad"],
+        un1_ops=["neg", "abs", "conj", "real", "sin", "cos", "sqrt", "pos", "minus", "grad"],
         bin1_ops=["add", "mul", "div", "inner", "dot", "outer", "pow"],
-        core1=["f9", "g5", "c9", "v6", "two", "A3", "a0"],
-        un2_ops=["neg", "sin", "pos", "conj"],
-        bin2_ops=["add", "mul", "inner", "div"],
+        l2_sources="nonbin",
+        core1=["f9", "v6"],
+        un2_ops=["neg"],
+        bin2_ops=["add", "mul"],
         level3=True,
-        core2=["f9", "v6"],
-        un3_ops=["neg"],
-        bin3_ops=["add", "mul"],
+        l3_sources="ix",
+        core2=["g5"],
+        un3_ops=[],
+        bin3_ops=["mul"],
         r_size=300,
     ),
 }
@@ -590,6 +633,8 @@ class Universe:
         for r, x in l1:
             for spec in idx_variants(x, lite=True):
                 add(("ix", r, spec), 2)
+            if P["l2_sources"] == "nonbin" and r[0] == "b" and r not in EXTRAS:
+                continue
             for op in P["un2_ops"]:
                 add(("u", op, r), 2)
             for c in P["core1"]:
@@ -599,8 +644,10 @@ class Universe:
         if P["level3"]:
             l2 = list(lvl[2])
             for r, x in l2:
-                for spec in idx_variants(x, lite=True)[:2]:
+                for spec in idx_variants(x, lite=True)[1:2]:
                     add(("ix", r, spec), 3)
+                if P["l3_sources"] == "ix" and r[0] != "ix":
+                    continue
                 for op in P["un3_ops"]:
                     add(("u", op, r), 3)
                 for c in P["core2"]:
@@ -776,7 +823,7 @@ def matrix_laws(run, cands, Ms):
         # totality
         bad = np.argwhere(((~valid) | (~valid.T)) & iu) if not valid.all() else []
         for ia, ib in bad:
-            tag = diff_tag(objs[ia], objs[ib])
+            tag = cause_tag((objs[ia], objs[ib]))
             cands.add("cmp-raises", tag, (int(ia), int(ib)), "cmp_expr raises, the ordering is not total", w.name)
         for ia in np.argwhere((~valid).diagonal()).ravel():
             cands.add("cmp-raises", "self", (int(ia),), "cmp_expr(a, a) raises", w.name)
@@ -788,12 +835,16 @@ def matrix_laws(run, cands, Ms):
         for ia, ib in np.argwhere(anti):
             cands.add(
                 "antisym",
-                diff_tag(objs[ia], objs[ib]),
+                cause_tag((objs[ia], objs[ib])),
                 (int(ia), int(ib)),
                 f"sign(cmp(a,b))={M[ia, ib]} and sign(cmp(b,a))={M[ib, ia]}",
                 w.name,
             )
         run.validated += n + (n * (n - 1)) // 2
+        run.count(f"{w.name}:pairs_cmp0_offdiag_unordered", int(((M == 0) & iu).sum()))
+        if w.name != "W0":
+            run.count(f"{w.name}:ordered_pairs", n * n)
+            continue
         # all n^3 ordered triples by boolean matrix products on the complete matrix
         L = (M == -1).astype(np.float32)
         Eq = (M == 0).astype(np.float32)
@@ -814,14 +865,7 @@ def matrix_laws(run, cands, Ms):
                 for ia, ic in np.argwhere(badm):
                     ib = int(np.argmax((X[ia, :] > 0) & (Y[:, ic] > 0)))
                     a, b, c = objs[ia], objs[ib], objs[ic]
-                    if law == "trans-lt":
-                        tag = diff_tag(a, c)
-                    elif law == "trans-eq":
-                        tag = diff_tag(a, b) + "+" + diff_tag(b, c)
-                    elif law == "cons-eq-lt":
-                        tag = diff_tag(a, b)
-                    else:
-                        tag = diff_tag(b, c)
+                    tag = cause_tag((a, c), (a, b), (b, c))
                     if fam_seen.get(tag, 0) >= 50:  # diff_tag is only needed for classification
                         cands.tot[f"{law}:{tag}"] = cands.tot.get(f"{law}:{tag}", 0) + 1
                         continue
@@ -829,11 +873,10 @@ def matrix_laws(run, cands, Ms):
                     # confirm on the real function
                     if not confirm_triple(law, a, b, c):
                         raise RuntimeError("harness: matrix witness not confirmed by direct calls")
-                    cands.add(law, tag, (int(ia), ib, int(ic)), what, w.name)
-        run.validated += 4 * n**3
+                    cands.add(law, tag, (int(ia), ib, int(ic)), what + "; " + sorted3_note(a, b, c), w.name)
         run.count(f"{w.name}:ordered_pairs", n * n)
-        run.count(f"{w.name}:ordered_triples", n**3)
-        run.count(f"{w.name}:pairs_cmp0_offdiag_unordered", int((Eb & iu).sum()))
+        run.count(f"{w.name}:ordered_triples(4 laws each)", n**3)
+        del L, Eq, Lb, Eb, XY
     # ---- tie law (W0): cmp == 0 only for pairs that cannot be told apart without numbers
     M0 = Ms["W0"]
     nfA, nfE = G["nfA"], G["nfE"]["W0"]
@@ -849,20 +892,17 @@ def matrix_laws(run, cands, Ms):
             if len(G.setdefault("pattern_samples", [])) < 4:
                 G["pattern_samples"].append([show(U.recipes[ia]), show(U.recipes[ib])])
             continue
-        eq = False
         try:
-            eq = bool(a == b)
+            if bool(a == b):
+                run.count("cmp0:distinguishable_but_ufl_==_is_blind_to_it")
         except FATAL:
             raise
         except BaseException:  # noqa: BLE001
             pass
-        if eq:
-            run.count("cmp0:ufl_equal_but_different_repr(not flagged here)")
-            continue
         run.count("cmp0:distinguishable(VIOLATION)")
         cands.add(
             "tie",
-            diff_tag(a, b),
+            cause_tag((a, b)),
             (ia, ib),
             "cmp_expr(a,b)==0 for operands that are distinguishable without index/label numbers (a != b): "
             "the stable sort keeps the construction order",
@@ -886,7 +926,7 @@ def matrix_laws(run, cands, Ms):
             ia, ib = int(ia), int(ib)
             cands.add(
                 "shift",
-                diff_tag(objs0[ia], objs0[ib]),
+                cause_tag((objs0[ia], objs0[ib]), (U.objs[w.name][ia], U.objs[w.name][ib])),
                 (ia, ib),
                 f"sign(cmp(a,b)) is {M0[ia, ib]} in W0 but {M[ia, ib]} after renumbering indices/labels ({w.name})",
                 w.name,
@@ -1157,7 +1197,7 @@ def w_pairs(rows):
             if nontrivial:
                 part.inc("nontrivial")
             for law, what in res:
-                cands.add(law, diff_tag(a, b), (ia, ib), what)
+                cands.add(law, cause_tag((a, b)), (ia, ib), what)
             if (ia * 7919 + ib) % 200003 == 0:
                 part.sample({"a": show(U.recipes[ia]), "b": show(U.recipes[ib]), "cmp": int(M0[ia, ib]),
                              "a+b": short(nf(attempt(lambda p, q: p + q, a, b)[0], G["worlds"][0], "alpha"), 200)
@@ -1183,6 +1223,17 @@ def sorted3_law(a, b, c, cmpf):
         elif any(cmpf(p, q) != 0 for p, q in zip(ref, s)):
             return "sorted_expr of two permutations differ beyond cmp==0 ties"
     return None
+
+
+def sorted3_note(a, b, c):
+    """Observable consequence of an inconsistent comparison: does sorted_expr depend on the input order?"""
+    try:
+        outs = {tuple(id(x) for x in sorted_expr(p)) for p in itertools.permutations((a, b, c))}
+    except FATAL:
+        raise
+    except BaseException as e:  # noqa: BLE001
+        return f"sorted_expr raises {type(e).__name__}"
+    return f"sorted_expr over the 6 input orders gives {len(outs)} different sequences"
 
 
 def triple_ctor_law(opf, p, q, r):
@@ -1237,7 +1288,7 @@ def w_triples(rows):
                 part.inc("validated")
                 msg = sorted3_law(a, b, c, cmpf)
                 if msg:
-                    cands.add("sorted3", diff_tag(a, b) + "+" + diff_tag(b, c), (ia, ib, ic), msg)
+                    cands.add("sorted3", cause_tag((a, b), (b, c), (a, c)), (ia, ib, ic), msg)
                 if not (a.ufl_shape == b.ufl_shape == c.ufl_shape):
                     continue
                 alld = len({cls[ia], cls[ib], cls[ic]}) == 3
@@ -1264,7 +1315,7 @@ def w_triples(rows):
                             != nf(r, W0, "alpha" if ALPHA_STRICT else "erase")
                         )
                         if dis:
-                            cands.add(law, diff_tag(p, q) + "+" + diff_tag(s, r), (ia, ib, ic), msg)
+                            cands.add(law, cause_tag((p, q), (s, r)), (ia, ib, ic), msg)
                         else:
                             part.count(law + ":excused_differs")
     part.d["cands"] = cands.dump()
